@@ -27,14 +27,16 @@ def drop(d):
     sh(["git", "-C", REPO, "worktree", "remove", "--force", d])
     shutil.rmtree(d, ignore_errors=True)
 
-def new(name, file, old, new_):
+def new(name, *triples):
     d = worktree()
     try:
-        p = os.path.join(d, file)
-        s = open(p).read()
-        if s.count(old) != 1:
-            raise SystemExit("pattern occurs %d times in %s" % (s.count(old), file))
-        open(p, "w").write(s.replace(old, new_, 1))
+        for i in range(0, len(triples), 3):
+            file, old, new_ = triples[i:i + 3]
+            p = os.path.join(d, file)
+            s = open(p).read()
+            if s.count(old) != 1:
+                raise SystemExit("pattern occurs %d times in %s" % (s.count(old), file))
+            open(p, "w").write(s.replace(old, new_, 1))
         rc, out = sh(["git", "diff"], cwd=d)
         path = os.path.join(HERE, "patches", name + ".diff")
         open(path, "w").write(out)
@@ -73,7 +75,7 @@ if __name__ == "__main__":
     if not a:
         print(__doc__); sys.exit(2)
     if a[0] == "new":
-        new(a[1], a[2], a[3], a[4])
+        new(a[1], *a[2:])
     elif a[0] == "test":
         print(json.dumps(test(a[1], a[2:]), indent=1))
     elif a[0] == "all":
